@@ -4,7 +4,7 @@ from __future__ import annotations
 import ast
 
 from ..cfg import iter_own
-from ..loader import AnalysisError, FuncInfo, walk_own
+from ..loader import exc_expr, AnalysisError, FuncInfo, walk_own
 from . import c03
 from .common import Anchors, call_name, enum_member, self_attr
 
@@ -126,7 +126,7 @@ def run(ctx) -> None:
         rep.check("C13.R1", ok_returns, guard, t.ast, "the guard returns normally when the state is allowed", "the guard can raise although the state is allowed")
         reach_bad = gcfg.reach(bad_side, avoid=[t.id], edge_ok=lambda s, d, lab: lab != "e")
         raises = [gcfg.nodes[i] for i in reach_bad if gcfg.nodes[i].kind == "stmt" and isinstance(gcfg.nodes[i].ast, ast.Raise)]
-        all_rt = bool(raises) and all(r.ast.exc is not None and "RuntimeError" in ast.unparse(r.ast.exc) for r in raises)
+        all_rt = bool(raises) and all(r.ast.exc is not None and "RuntimeError" in ast.unparse(exc_expr(r.ast)) for r in raises)
         rep.check("C13.R1", gcfg.exit not in reach_bad and all_rt, guard, t.ast, f"in every other state the guard raises RuntimeError ({len(raises)} raise sites, all four states enumerated)", "for a state outside the allowed set the guard can return normally or raise something other than RuntimeError")
         rep.check("C13.R1", all(gcfg.dominates(t.id, n.id) for n in gcfg.live_nodes() if n.kind == "stmt" and isinstance(n.ast, (ast.Raise, ast.Return))), guard, t.ast, "the membership test comes first", "a raise/return precedes the membership test")
         muts = a.func_mutations(guard)
@@ -227,8 +227,12 @@ def run(ctx) -> None:
         else:
             t = tests[0]
             side = [d for d, lab in t.succ if lab == "t"]
-            first = xcfg.nodes[side[0]] if side else None
-            rep.check("C13.R4", first is not None and isinstance(first.ast, ast.Raise) and "RuntimeError" in ast.unparse(first.ast.exc), aexit, t.ast, "a still-open child context is reported with RuntimeError", "a still-open child context is not reported as an error")
+            # on the "children left" side every (non-exceptional) path ends in a raise of RuntimeError
+            region = xcfg.reach(side, avoid=[t.id], edge_ok=lambda s_, d_, lab: lab not in ("e", "h")) if side else set()
+            rraises = [xcfg.nodes[i] for i in sorted(region) if xcfg.nodes[i].kind == "stmt" and isinstance(xcfg.nodes[i].ast, ast.Raise)]
+            first = rraises[0] if rraises else None
+            ok_r = bool(rraises) and xcfg.exit not in region and all(r.ast.exc is not None and "RuntimeError" in ast.unparse(exc_expr(r.ast)) for r in rraises)
+            rep.check("C13.R4", ok_r, aexit, t.ast, "a still-open child context is reported with RuntimeError", "a still-open child context is not reported as an error")
             aw = [n for n in xcfg.live_nodes() if a.node_checkpoints(aexit, xcfg, n)]
             rep.check("C13.R4", bool(aw) and t.id in xcfg.reach([aw[0].id]) and not xcfg.dominates(t.id, aw[0].id), aexit, t.ast, "the check runs after the exit stack has been unwound", "the child check runs before the exit stack is unwound")
             hs = a.covering_handlers(aexit, first.ast) if first is not None else []
@@ -265,6 +269,43 @@ def run(ctx) -> None:
                     return True
         return False
 
+    def may_be(f, expr, state) -> set:
+        """Possible truth values of a test in a given lifecycle state (state reads are decided,
+        everything else may be either)."""
+        both = {True, False}
+        if isinstance(expr, ast.UnaryOp) and isinstance(expr.op, ast.Not):
+            return {not v for v in may_be(f, expr.operand, state)}
+        if isinstance(expr, ast.BoolOp):
+            vals = [may_be(f, v, state) for v in expr.values]
+            if isinstance(expr.op, ast.And):
+                out = set()
+                if all(True in v for v in vals):
+                    out.add(True)
+                if any(False in v for v in vals):
+                    out.add(False)
+                return out
+            out = set()
+            if any(True in v for v in vals):
+                out.add(True)
+            if all(False in v for v in vals):
+                out.add(False)
+            return out
+        if isinstance(expr, ast.Attribute) and closed_prop and expr.attr == closed_prop and reads_state(f, expr):
+            return {state in ("closing", "closed")}
+        if isinstance(expr, ast.Compare) and len(expr.ops) == 1 and isinstance(expr.left, ast.Attribute) and expr.left.attr == st_attr:
+            op, rhs = expr.ops[0], expr.comparators[0]
+            if isinstance(op, (ast.Is, ast.Eq, ast.IsNot, ast.NotEq)):
+                m = enum_member(rhs, st_enum)
+                if m:
+                    r = state == m
+                    return {r if isinstance(op, (ast.Is, ast.Eq)) else not r}
+            if isinstance(op, (ast.In, ast.NotIn)) and isinstance(rhs, (ast.Tuple, ast.List, ast.Set)):
+                ms = {enum_member(x, st_enum) for x in rhs.elts}
+                if None not in ms:
+                    r = state in ms
+                    return {r if isinstance(op, ast.In) else not r}
+        return both
+
     extra = 0
     scanned = 0
     for f in ctx.p.all_functions():
@@ -275,13 +316,39 @@ def run(ctx) -> None:
         if not any(isinstance(x, ast.Attribute) and x.attr in (st_attr, closed_prop) for x in walk_own(f.node)):
             continue
         scanned += 1
-        fcfg = a.cfg(f)
-        for r in fcfg.live_nodes():
-            if r.kind == "stmt" and isinstance(r.ast, ast.Raise):
-                for t, lab in controlling_tests(fcfg, r):
-                    if isinstance(t.ast, ast.AST) and reads_state(f, t.ast):
-                        extra += 1
-                        rep.violate("C13.R6", f, r.ast, f"`{ast.unparse(t.ast)}` gates a raise on the lifecycle state outside the guard: an operation the statement allows in that state (e.g. during teardown, when `closed` is already true) is refused, or the refusal differs from the guard's RuntimeError")
+        # the tests a raise is nested in (an early-exit gate in front of other raises does not
+        # gate those: they are judged by their own conditions)
+        def gated(stmts, conds):
+            for st in stmts:
+                if isinstance(st, ast.Raise):
+                    yield st, list(conds)
+                elif isinstance(st, (ast.FunctionDef, ast.AsyncFunctionDef, ast.ClassDef)):
+                    continue
+                elif isinstance(st, (ast.If, ast.While)):
+                    yield from gated(st.body, conds + [(st.test, True)])
+                    yield from gated(st.orelse, conds + [(st.test, False)])
+                else:
+                    for fld in ("body", "orelse", "finalbody"):
+                        blk = getattr(st, fld, None)
+                        if isinstance(blk, list) and blk and isinstance(blk[0], ast.stmt):
+                            yield from gated(blk, conds)
+                    for h in getattr(st, "handlers", []) or []:
+                        yield from gated(h.body, conds)
+
+        for r_ast, conds in gated(f.node.body, []):
+            for t_ast, want in conds:
+                if reads_state(f, t_ast):
+                    # in which states can this gate fire?  Harmless if only where the
+                    # statement demands a RuntimeError anyway (and that is what it raises)
+                    fires = {st for st in STATES if want in may_be(f, t_ast, st)}
+                    row = MATRIX.get(f.name) if f.owner_class is not None and ctx.p.is_subclass(f.owner_class, an.Context.name) else None
+                    exc = r_ast.exc
+                    is_rt = exc is not None and "RuntimeError" in ast.unparse(exc)
+                    if row is not None and not (fires & row) and is_rt:
+                        rep.hold("C13.R6", f, r_ast, f"extra gate `{ast.unparse(t_ast)}` fires only in states {sorted(fires)} where the statement demands RuntimeError anyway")
+                        continue
+                    extra += 1
+                    rep.violate("C13.R6", f, r_ast, f"`{ast.unparse(t_ast)}` gates a raise on the lifecycle state outside the guard (fires in states {sorted(fires)}): an operation the statement allows in that state (e.g. during teardown, when `closed` is already true) is refused, or the refusal differs from the guard's RuntimeError")
     if not extra:
         rep.hold("C13.R6", guard, None, f"no raise outside the guard is controlled by the lifecycle state ({scanned} functions with both a raise and a state read inspected)", nontrivial=False)
     rep.exhaustive = True
